@@ -59,7 +59,8 @@ RULE = ("adaptive histories (motif prefix + 14-30 ops) over parametrised spaces 
 
 # ----------------------------------------------------------------------------- formulas
 
-NEEDS = [set(), {"i"}, set(), {"r"}, {"i", "j"}, {"i"}, {"i"}, {"u"}, {"k", "i"}, {"s"}, {"n", "k"}]
+NEEDS = [set(), {"i"}, set(), {"r"}, {"i", "j"}, {"i"}, {"i"}, {"u"}, {"k", "i"}, {"s"}, {"n", "k"}, set(), set()]
+OBJREFS = ["a", "b", "c"]      # names of object-valued references (apart from the value references REFS)
 
 
 def visible_names(space):
@@ -94,6 +95,18 @@ def cell_src(rng, space=None, nested=False, caller=False):
     cand += [4, 4]
     if nested:
         cand += [8, 8, 10]
+    ro, rs = [], []
+    if space is not None:
+        # references of the space to members of its own tree: an alias of a cells, a reference to a space with cells
+        for n, (v, mode) in IW.obj_refs(space).items():
+            if v._is_valid() and type(v).__name__ == "Cells":
+                ro.append(n)
+            elif v._is_valid() and hasattr(v, "cells") and list(v.cells):
+                rs.append((n, list(v.cells)))
+        if ro:
+            cand += [11, 11, 11]
+        if rs:
+            cand += [12, 12]
     if space is not None and rng.random() < 0.85:
         vis = visible_names(space)
         good = [t for t in cand if NEEDS[t] <= vis]
@@ -103,6 +116,11 @@ def cell_src(rng, space=None, nested=False, caller=False):
     c = "X"
     if t == 5:
         c, a = rng.choice(childs)
+    if t == 11:
+        return IW.CELL_TEMPLATES[t].format(k=rng.randint(1, 5), ro=rng.choice(ro))
+    if t == 12:
+        n, names = rng.choice(rs)
+        return IW.CELL_TEMPLATES[t].format(k=rng.randint(1, 5), rs=n, a=rng.choice(names))
     return IW.CELL_TEMPLATES[t].format(k=rng.randint(1, 5), a=a, c=c)
 
 
@@ -193,8 +211,39 @@ MOTIFS = [
      ["new_cells", "B", "f", C(0, k=5)], ["new_cells", "B", "g", C(2, a="f", k=3)], ["new_space", "-", "P", None, []],
      ["new_space", "-", "S", 0, ["P", "B"]], ["new_space", "S", "X", None, ["P", "B"]],
      ["new_cells", "S", "h", C(5, c="X", a="g")]],
+    # ---- references of a base to members of its OWN tree (an alias of a sibling cells, a reference to a child space,
+    # to the base itself, from a child to a cells of its parent) - in an instance they denote the instance's own
+    # members, whatever the instance hangs under:
+    # ... the base is a FOREIGN space chosen by the parameter formulas of two parents (one of them returns references too)
+    [["new_space", "-", "O", None, []], ["new_cells", "O", "f", C(1)], ["new_space", "O", "X", None, []],
+     ["new_cells", "O.X", "q", C(4)], ["set_ref", "O", "a", ["obj", "O.f"], "auto"], ["set_ref", "O", "b", ["obj", "O.X"], "auto"],
+     ["set_ref", "O", "c", ["obj", "O"], "auto"], ["set_ref", "O.X", "a", ["obj", "O.f"], "auto"],
+     ["set_ref", "O.X", "b", ["obj", "O.X.q"], "relative"],
+     ["new_cells", "O", "g", C(11, ro="a", k=1)], ["new_cells", "O", "h", C(12, rs="b", a="q", k=2)],
+     ["new_cells", "O", "q", C(12, rs="c", a="f", k=3)], ["new_cells", "O.X", "g", C(11, ro="a", k=4)],
+     ["new_cells", "O.X", "h", C(11, ro="b", k=5)],
+     ["new_space", "-", "T", 3, []], ["new_space", "-", "S", 4, []]],
+    # ... the base is a parametrised CHILD of a parametrised space: S[i].X[k] hangs under the dynamic S[i]; the
+    # nested space has a replicated child; the outer space has such references too
+    [["new_space", "-", "S", 0, []], ["new_cells", "S", "f", C(1)], ["new_space", "S", "X", 5, []],
+     ["new_cells", "S.X", "q", C(8)], ["new_space", "S.X", "Z", None, []], ["new_cells", "S.X.Z", "q", C(8)],
+     ["set_ref", "S.X", "a", ["obj", "S.X.q"], "auto"], ["set_ref", "S.X", "b", ["obj", "S.X.Z"], "auto"],
+     ["set_ref", "S.X.Z", "c", ["obj", "S.X.q"], "auto"],
+     ["new_cells", "S.X", "g", C(11, ro="a", k=1)], ["new_cells", "S.X", "h", C(12, rs="b", a="q", k=2)],
+     ["new_cells", "S.X.Z", "h", C(11, ro="c", k=3)],
+     ["set_ref", "S", "a", ["obj", "S.f"], "relative"], ["new_cells", "S", "g", C(11, ro="a", k=4)]],
+    # ... the ordinary case (the instance's base is the space it hangs under), two parameters, a child space; and a
+    # foreign base that is itself parametrised and has a parametrised child: T[i].X[k] with base O.X
+    [["new_space", "-", "S", 1, []], ["new_cells", "S", "f", C(4)], ["new_space", "S", "Y", None, []],
+     ["new_cells", "S.Y", "q", C(4)], ["set_ref", "S", "a", ["obj", "S.f"], "auto"], ["set_ref", "S", "b", ["obj", "S.Y"], "auto"],
+     ["new_cells", "S", "g", C(11, ro="a", k=1)], ["new_cells", "S", "h", C(12, rs="b", a="q", k=2)],
+     ["new_space", "-", "O", 0, []], ["new_cells", "O", "f", C(1)], ["new_space", "O", "X", 5, []],
+     ["new_cells", "O.X", "q", C(8)], ["set_ref", "O.X", "a", ["obj", "O.X.q"], "auto"],
+     ["new_cells", "O.X", "g", C(11, ro="a", k=3)], ["set_ref", "O", "b", ["obj", "O.f"], "auto"],
+     ["new_cells", "O", "h", C(11, ro="b", k=4)], ["new_space", "-", "T", 3, []]],
 ]
 CORE_MOTIFS = [0, 1, 2, 3, 4, 5, 6]       # inside the vocabulary the Lean model covers
+OBJ_MOTIFS = [len(MOTIFS) - 3, len(MOTIFS) - 2, len(MOTIFS) - 1]
 
 
 def spelling(rng, params, malformed=0.12):
@@ -370,6 +419,12 @@ def gen_next(rng, world, prev, wide):
         free = [n for n in CELLS if n not in cells]
         if free:
             return ["rename_cells", path, rng.choice(cells), rng.choice(free)]
+    if k == "set_ref" and any(IW.obj_refs(sp) for _, sp in statics) and rng.random() < 0.4:
+        # (only in histories that already have object-valued references: those of the other motifs keep their draws)
+        # a reference to a member of the space's own tree: a cells, a child space, the space itself, a cells of a child
+        tgt = [path + "." + c for c in cells] * 2 + [path + "." + c for c in s.spaces] + [path] \
+            + [path + "." + c + "." + a for c in s.spaces for a in s.spaces[c].cells]
+        return ["set_ref", path, rng.choice(OBJREFS), ["obj", rng.choice(tgt)], rng.choice(["auto", "auto", "relative"])]
     if k == "set_ref":
         return ["set_ref", path, rng.choice(REFS), rng.randint(0, 9)]
     if k == "del_ref" and own_refs:
@@ -927,6 +982,8 @@ class Run:
                 continue            # the definitions no longer describe this address (parent edited)
             if not hasattr(base, "_is_valid") or not base._is_valid():
                 continue
+            if self.check_refs_inside(path, cchain, dyn, base, argmaps, frefs, hist, impl):
+                continue
             if uses_model(base):
                 continue            # formulas reaching into the model cannot be replicated in another model
             mine = IW.tree_values(dyn)
@@ -954,6 +1011,43 @@ class Run:
                     self.stale("%s: %s is %s in the instance but %s in a plain replica of the base with the "
                                "parameters bound" % (IW.chain_txt(path, cchain), q, a, b), hist, impl)
                     break
+
+    def check_refs_inside(self, path, cchain, dyn, base, argmaps, frefs, hist, impl):
+        """(a'): a reference DEFINED in a space of the base's tree (not in absolute mode) whose value is a member of
+        that tree denotes, in the instance, the instance's own member: `S[k].r is S[k].rate` for `Base.r = Base.rate`.
+        (Derived references and targets outside the tree of the instance's own base are C10's subject.)"""
+        shadow = set(frefs)
+        for a in argmaps:
+            shadow |= set(a)
+
+        def walk(b, d):
+            for n, (v, mode) in IW.obj_refs(b).items():
+                if mode == "absolute" or not v._is_valid() or b._impl.own_refs[n].is_derived():
+                    continue
+                if n in shadow or n in d.cells or n in d.spaces:
+                    continue
+                rel = IW.inside(base, v)
+                if rel is None:
+                    continue
+                self.stats["refs_inside_checked"] += 1
+                try:
+                    with quiet():
+                        got = getattr(d, n)
+                        want = IW.follow(dyn, rel)
+                except Exception as e:
+                    got, want = "raised " + err_kind(e), None
+                if got is not want:
+                    self.stale("%s: the reference %s of %s is %s (%s) in the instance, not the instance's own %s" % (
+                        IW.chain_txt(path, cchain), n, b.fullname.split(".", 1)[1],
+                        got if isinstance(got, str) else getattr(got, "fullname", repr(got)),
+                        "the static member" if got is v else "another object",
+                        ".".join(rel) or "self"), hist, impl)
+                    return True
+            for chn in b.spaces:
+                if chn in d.spaces and walk(b.spaces[chn], d.spaces[chn]):
+                    return True
+            return False
+        return walk(base, dyn)
 
     # -- (c) ------------------------------------------------------------------------------
     def check_fresh(self, world, ops, k, hist):
@@ -1022,6 +1116,8 @@ def corr_eligible(ops):
             return False
         if o[0] == "new_space" and (o[4] or o[2] in ("A", "C")):
             return False
+        if o[0] == "set_ref" and IW.is_obj(o[3]):
+            return False        # object-valued references: the decision logic is the Relative kernel's (C10)
     return True
 
 
